@@ -418,6 +418,45 @@ def run(tier: str, seed: int) -> dict:
                     n_c += 1
     parts["C_searches"] = n_c
 
+    # D. every decider class (incl. the probabilistic one) on every grammar plus one with an unproductive symbol
+    from rt.heap_helpers import unproductive_grammar, DECIDERS, grammar_snapshot, grammar_diff
+    from geneticengine.random.sources import NativeRandomSource as _NRS
+
+    n_d = 0
+    for (gname, classes, start, refined, gdesc) in grammars + [unproductive_grammar()]:
+        for dk in DECIDERS:
+            if clock.over():
+                break
+            try:
+                g = extract_grammar(classes, start)
+            except Exception:
+                continue
+            snap0 = grammar_snapshot(g)
+            for sd in range(3 if quick else 12):
+                src = _NRS(seed * 97 + sd)
+                try:
+                    with watchdog(3):
+                        dec = make_decider(dk, src, g, g.get_min_tree_depth() + 2 if g.get_min_tree_depth() < 100000 else 4)
+                        rep = TreeBasedRepresentation(g, dec)
+                        t = rep.create_genotype(src)
+                        rep.mutate(src, t)
+                except Timeout:
+                    pass
+                except Exception:
+                    pass
+                n_d += 1
+                stats["checks"] += 1
+                snap1 = grammar_snapshot(g)
+                if snap1 != snap0:
+                    found.report(
+                        f"rt:C10:{dk}Decider-changes-grammar",
+                        len(classes),
+                        f"{gname} [{gdesc}], TreeBasedRepresentation with the {dk} decider, seed {seed * 97 + sd}: after create + mutate the grammar differs: {'; '.join(grammar_diff(snap0, snap1))[:400]}",
+                        f"{dk}.choose_production_alternatives",
+                    )
+                    break
+    parts["D_all_deciders"] = n_d
+
     notes = []
     if stats["abstract_dist_to_t_changes"]:
         notes.append(
